@@ -400,7 +400,7 @@ class Site:
 
 
 def concurrent_requests(site: "Site", jobs: typing.List[typing.Tuple[bytes, typing.Any]], nthreads: int = 8,
-                        timeout: float = 30.0) -> typing.List[bytes]:
+                        timeout: float = 30.0, aligned_start: bool = False) -> typing.List[bytes]:
     """Run the jobs (request bytes, tls) on `nthreads` threads at once, each through the
     real process_request_thread on its own socketpair.  Returns the reply bytes in job
     order.  Escaping exceptions accumulate in site._escaped, log lines in site._log
@@ -408,6 +408,8 @@ def concurrent_requests(site: "Site", jobs: typing.List[typing.Tuple[bytes, typi
     results: typing.List[typing.Optional[bytes]] = [None] * len(jobs)
     nxt = [0]
     lock = threading.Lock()
+    nthreads = max(1, min(nthreads, len(jobs)))
+    gate = threading.Barrier(nthreads) if aligned_start else None
 
     def one(i: int) -> None:
         data, tls = jobs[i]
@@ -432,6 +434,11 @@ def concurrent_requests(site: "Site", jobs: typing.List[typing.Tuple[bytes, typi
         t = threading.Thread(target=client, daemon=True)
         t.start()
         srv: typing.Any = MockTLSSocket(s_srv) if tls in (True, "mock") else s_srv
+        if gate is not None and i < nthreads:
+            try:
+                gate.wait(10)        # the first request of every worker enters the server together
+            except threading.BrokenBarrierError:
+                pass
         site.server.process_request_thread(srv, CLIENT_ADDR)
         t.join(timeout + 5)
         results[i] = b"".join(chunks)
